@@ -143,6 +143,9 @@ type scenario struct {
 	// order and lets the watcher settle (5 ms of virtual time) after every step
 	script []step
 	p0     uint64 // version of the parent transaction the watching starts with
+	// lag: the client does not read its event streams until the chain program has ended (more
+	// events than the watcher buffers for it are pending by then)
+	lag bool
 }
 
 // step of a sequential history: Kind in {pub, stop, reg, prog, conc}
@@ -226,9 +229,13 @@ func exec(t *testing.T, ssc schedrun.Scenario, o vsched.Options) (*vsched.Sched,
 			}
 			w.pubs = append(w.pubs, pubRec{n, 0, 0, 0})
 		}
+		chainDone := false
 		for _, n := range append([]string{"P"}, subNames...) {
 			n, st := n, evs[n]
 			vsched.GoNamed("reader-"+n, func() {
+				if sc.lag {
+					vsched.WaitCond("reader.lag", func() bool { return chainDone })
+				}
 				for {
 					e, ok := vsched.Recv2(st.EventStream())
 					if !ok {
@@ -335,6 +342,7 @@ func exec(t *testing.T, ssc schedrun.Scenario, o vsched.Options) (*vsched.Sched,
 				for _, o := range sc.eprog {
 					doChain(o)
 				}
+				chainDone = true
 				vsched.Send(done, struct{}{})
 			})
 		}
@@ -751,6 +759,25 @@ func scenarios(res *report.Result) []schedrun.Scenario {
 		n := fmt.Sprintf("script/p0=%d/%s", sc.p0, strings.Join(ks, ","))
 		table[n] = sc
 		out = append(out, schedrun.Scenario{Name: n, Mode: explore.Delay, Bound: 0, MaxSteps: 40000, Weight: 1})
+	}
+	// lagging client: 13 events for one channel (the watcher buffers 10 per channel for the client)
+	// are delivered before the client starts to read; all of them must be relayed, in order
+	for _, ch := range []string{"P", "S"} {
+		for _, first := range []string{"reg", "prog"} {
+			ep := []eop{{ch, first, 1}}
+			for v := uint64(2); v <= 12; v++ {
+				ep = append(ep, eop{ch, "prog", v})
+			}
+			ep = append(ep, eop{ch, "conc", 12})
+			sc := scenario{nsubs: 1, eprog: ep, lag: true}
+			n := fmt.Sprintf("lag/%s/%s..conc12", ch, first)
+			table[n] = sc
+			b := 0
+			if res.Thorough() {
+				b = 1
+			}
+			out = append(out, schedrun.Scenario{Name: n, Mode: explore.Delay, Bound: b, MaxSteps: 40000, Weight: 50, Postpone: b > 0})
+		}
 	}
 	cp, ep, cp2, ep2 := programs(res.Thorough())
 	if res.Thorough() {
